@@ -104,7 +104,8 @@ func verifGen() verifLayout {
 	pad := verifSpaces(ind)
 	cpad := verifSpaces(ind + cind)
 	for i := 0; i < pre; i++ {
-		L.lines = append(L.lines, pad+verifPre[0]+": "+verifPre[1])
+		pp := verifPreAt(i)
+		L.lines = append(L.lines, pad+pp[0]+": "+pp[1])
 	}
 	L.keyLine = pre + 1
 	L.keyCol = ind + 1
@@ -214,6 +215,7 @@ func verifGen() verifLayout {
 var (
 	verifKey   = "k"
 	verifPre   = [2]string{"a", "b"} // sibling field(s) before: key, plain value
+	verifPreList [][2]string         // when set: the i-th field before is verifPreList[i] (distinct keys)
 	verifPost  = [2]string{"z", "w"} // sibling field(s) after
 	verifExtra []*yaml.Node          // further key/value nodes after the post siblings (their lines are appended by the caller)
 )
@@ -243,7 +245,8 @@ func verifParse(L verifLayout) (key, val *yaml.Node) {
 	ind := verifParam("ind")
 	m := &yaml.Node{Kind: yaml.MappingNode, Tag: "!!map", Line: 1, Column: ind + 1}
 	for i := 0; i < pre; i++ {
-		m.Content = append(m.Content, verifScalar(verifPre[0], i+1, ind+1), verifScalar(verifPre[1], i+1, ind+len(verifPre[0])+3))
+		pp := verifPreAt(i)
+		m.Content = append(m.Content, verifScalar(pp[0], i+1, ind+1), verifScalar(pp[1], i+1, ind+len(pp[0])+3))
 	}
 	vn := verifScalar(L.value, L.line, L.col)
 	vn.Style = L.style
@@ -271,4 +274,12 @@ func verifParse(L verifLayout) (key, val *yaml.Node) {
 	verifAssert(val.Value == L.value, "GENERATOR: yaml.v3 decodes a different Value")
 	verifAssert(val.Style == L.style, "GENERATOR: yaml.v3 reports a different Style")
 	return key, val
+}
+
+// verifPreAt: the i-th sibling field laid out before the field under test
+func verifPreAt(i int) [2]string {
+	if i < len(verifPreList) {
+		return verifPreList[i]
+	}
+	return verifPre
 }
